@@ -8,6 +8,7 @@ import NbioVerif.Properties.C12
 #print axioms Ws.c12_frame
 #print axioms Ws.c12_truncWriter
 #print axioms Ws.c12_segmentation
+#print axioms Ws.c12_handoff
 #print axioms Ws.c12_handshake_roundtrip
 #print axioms Ws.c12_handshake_then_roundtrip
 #print axioms Ws.c12_handshake_musts
